@@ -17,9 +17,22 @@ import (
 
 const suite = "filter"
 
+// suiteLoaded: the cases whose flows went through the production YAML loader
+// (tree level: streamconfig.GetFlows; engine level: Stream.Initialize); the
+// model evaluates them through its explicit loader stage (run_case_loaded).
+const suiteLoaded = "loaded"
+
 type runner struct {
 	o        *c.Out
 	maxCases int
+	loader   bool // tree-level cases: write flow files, read them back with GetFlows
+}
+
+func (r *runner) suiteName() string {
+	if r.loader {
+		return suiteLoaded
+	}
+	return suite
 }
 
 // runSet loads the flow set in every order (or only the given one when
@@ -45,7 +58,7 @@ func (r *runner) runSetRec(flows []Flow, txns []Txn, allOrders bool, label strin
 	}
 	var first *Case
 	for _, ord := range orders {
-		k := Case{}
+		k := Case{Loader: r.loader}
 		for _, i := range ord {
 			k.Flows = append(k.Flows, flows[i])
 		}
@@ -58,7 +71,7 @@ func (r *runner) runSetRec(flows []Flow, txns []Txn, allOrders bool, label strin
 		}
 		idx := -1
 		if record {
-			idx = o.Case(suite, coqCase(&k), k, nontrivial)
+			idx = o.Case(r.suiteName(), coqCase(&k), k, nontrivial)
 			o.Count("flows=" + fmt.Sprint(len(flows)))
 			o.Count("gen=" + label)
 			o.CountN("transactions", len(k.Obs))
@@ -76,15 +89,15 @@ func (r *runner) runSetRec(flows []Flow, txns []Txn, allOrders bool, label strin
 		for i := range k.Obs {
 			o.MonitorChecked(1)
 			for _, f := range checkSelection(k.Flows, k.AddErr, &k.Obs[i]) {
-				mini := Case{Flows: k.Flows, AddErr: k.AddErr, Obs: []Obs{k.Obs[i]}}
-				o.Hit(c.Hit{Suite: suite, Index: idx, Signature: f.sig, Demanded: f.demanded, Observed: f.observed, Case: mini})
+				mini := Case{Flows: k.Flows, AddErr: k.AddErr, Obs: []Obs{k.Obs[i]}, Loader: k.Loader}
+				o.Hit(c.Hit{Suite: r.suiteName(), Index: idx, Signature: f.sig, Demanded: f.demanded, Observed: f.observed, Case: mini})
 			}
 		}
 		// stability: a selection handed to one transaction is not changed by later lookups
 		o.MonitorChecked(1)
 		for _, m := range k.Mutated {
-			mini := Case{Flows: k.Flows, AddErr: k.AddErr, Obs: k.Obs[m.Index:]}
-			o.Hit(c.Hit{Suite: suite, Index: idx, Signature: "selection-mutated:GetFlow",
+			mini := Case{Flows: k.Flows, AddErr: k.AddErr, Obs: k.Obs[m.Index:], Loader: k.Loader}
+			o.Hit(c.Hit{Suite: r.suiteName(), Index: idx, Signature: "selection-mutated:GetFlow",
 				Demanded: fmt.Sprintf("the flows selected for %s %s (%v) are the ones run for it, whatever other transactions are looked up before it runs",
 					k.Obs[m.Index].Txn.Method, k.Obs[m.Index].Txn.URL, k.Obs[m.Index].Selected),
 				Observed: fmt.Sprintf("after the later transactions of the batch were looked up the same result object lists %v", m.After),
@@ -102,8 +115,8 @@ func (r *runner) runSetRec(flows []Flow, txns []Txn, allOrders bool, label strin
 					if !kcURL(k.Flows, k.Obs[i].Txn.URL) {
 						sig = "host-path-collision:insert" // F-C03c, judged on this URL only
 					}
-					mini := Case{Flows: k.Flows, AddErr: k.AddErr, Obs: []Obs{k.Obs[i]}}
-					o.Hit(c.Hit{Suite: suite, Index: idx, Signature: sig,
+					mini := Case{Flows: k.Flows, AddErr: k.AddErr, Obs: []Obs{k.Obs[i]}, Loader: k.Loader}
+					o.Hit(c.Hit{Suite: r.suiteName(), Index: idx, Signature: sig,
 						Demanded: fmt.Sprintf("selection independent of load order; loaded as %v the selection for %s %s was %v",
 							urlsOf(first.Flows), first.Obs[i].Txn.Method, first.Obs[i].Txn.URL, first.Obs[i].Selected),
 						Observed: fmt.Sprintf("loaded as %v the selection is %v", urlsOf(k.Flows), k.Obs[i].Selected),
@@ -144,12 +157,17 @@ func main() {
 	o := c.NewOut("C03")
 	o.ShardSize = 60
 	o.DeclareSuite(suite, "From Coq Require Import String.\nFrom Verif Require Import C03.Model.\nOpen Scope string_scope.", "case", "run_case")
+	o.DeclareSuite(suiteLoaded, "From Coq Require Import String.\nFrom Verif Require Import C03.Model.\nOpen Scope string_scope.", "case", "run_case_loaded")
 	o.Rule("exhaustive small scope: every set of <= 2 (thorough: 3) well-formed patterns over {a,b,{p}} + trailing * " +
 		"with 1-3 parts (host labels / path segments), loaded into a fresh FilterTree in EVERY order, x URL shapes derived " +
 		"from the patterns (instances, 1-2 extra trailing segments, missing last part, trailing '/', host only, host/path " +
 		"switched, unknown token); same-URL flow pairs x all constraint variants (method/header/query/status) x all " +
 		"request/response variants (incl. the request stream handled as a response without a response object); random " +
-		"larger sets; engine-level sample (also through exec_flow: anything happened <-> something selected). A case = one flow set in one load order with " +
+		"larger sets; status_code lists in the order written (every order of three codes, descending pairs, duplicates, five " +
+		"unordered codes) x every listed and unlisted status; filter and transaction URLs with upper-case letters in host labels " +
+		"and literal segments (both spellings of every URL, flows differing only in letter case) - both as Go literals and " +
+		"written as flow files read back by the production loader streamconfig.GetFlows (suite 'loaded', model stage load_flows); " +
+		"engine-level sample incl. these two families (also through exec_flow: anything happened <-> something selected). A case = one flow set in one load order with " +
 		"its batch of transactions; distinct = distinct (ordered flow set, transactions, selections); non-trivial = at least " +
 		"one transaction selects a flow")
 	r := &runner{o: o}
@@ -176,6 +194,7 @@ func replay(r *runner, k Case) {
 		runEngineCase(r, k.Flows, txns)
 		return
 	}
+	r.loader = k.Loader
 	// the recorded order first, then every other order (for the order-independence check)
 	r.runSet(k.Flows, txns, false, "replay")
 	r.runSet(k.Flows, txns, true, "replay-orders")
